@@ -2,6 +2,7 @@
 // (Load / OpenForWrite / RecordCommand / Close / Recompact / Restat / version handling), with the
 // log held in the in-memory file system, every tear offset of every reached file, and
 // continuations after the tear.  Reference model: lp::ParseBuildLog (independent reader).
+#include <setjmp.h>
 #include <stdio.h>
 #include <string.h>
 
@@ -120,6 +121,9 @@ static Entries ModelOf(const string& bytes, bool* usable) {
 
 struct Viol { string clause, detail; };
 
+static jmp_buf g_crash_jmp;
+static void OnCrashLx() { longjmp(g_crash_jmp, 1); }
+
 struct Ctx {
   vfs::Disk disk;
   vector<string> trail;       // labels of operations so far (for the replay)
@@ -185,6 +189,84 @@ struct Harness {
   }
 
   /// Applies op to the disk, checking the per-operation oracles.
+  uint64_t crash_points = 0;
+  bool sweep_crashes = true;
+
+  /// The process dies at every mutating file operation of a recompaction / restat (a write may land
+  /// partly): whatever is on disk afterwards must still hold, for every output that is not dead, the
+  /// record it had before or the one the operation was about to write -- never nothing.
+  void MaintenanceCrashSweep(const vfs::Disk& d0, const Op& op, const Entries& before, const Entries& target,
+                             const string& when) {
+    auto run = [&](bool heap) {
+      BuildLog* log = new BuildLog;
+      string err;
+      if (log->Load(kPath, &err) != LOAD_ERROR && vfs::disk->Get(kPath)) {
+        if (op.kind == Op::kRecompact) {
+          DeadSet user;
+          user.dead = op.dead;
+          log->Recompact(kPath, user, &err);
+        } else {
+          RealDiskInterface di;
+          vector<char*> argv;
+          vector<string> store = op.restat;
+          for (auto& x : store) argv.push_back(&x[0]);
+          log->Restat(kPath, di, (int)argv.size(), argv.data(), &err);
+        }
+      }
+      if (!heap) delete log;
+    };
+    vector<vfs::OpRecord> oplog;
+    {
+      vfs::Disk c = d0;
+      vfs::disk = &c;
+      vfs::ResetInvocation();
+      vfs::op_log = &oplog;
+      run(false);
+      vfs::op_log = nullptr;
+    }
+    for (size_t k = 0; k < oplog.size(); ++k) {
+      for (int tear : {-1, 7}) {
+        if (tear >= 0 && oplog[k].kind != vfs::kOpWrite) continue;
+        vfs::Disk c = d0;
+        vfs::disk = &c;
+        vfs::ResetInvocation();
+        vfs::crash_at = (int64_t)k;
+        vfs::crash_tear = tear;
+        vfs::on_crash = OnCrashLx;
+        if (!setjmp(g_crash_jmp)) run(true);   // objects leak on purpose: a dead process runs no destructors
+        vfs::dead = true;
+        vfs::CloseLeakedStreams();
+        vfs::ResetInvocation();
+        vfs::crash_at = -1;
+        vfs::crash_tear = -1;
+        vfs::on_crash = nullptr;
+        crash_points++;
+        string at = when + " killed at file operation " + to_string(k) + "/" + to_string(oplog.size()) +
+                    (tear >= 0 ? " (7 bytes of the write land)" : "");
+        Entries got;
+        vfs::Disk probe = c;
+        CheckLoad(&probe, &got, at);
+        for (auto& kv : before) {
+          if (op.kind == Op::kRecompact && op.dead.count(kv.first)) continue;
+          if (kv.first.size() + 40 >= kReaderBuffer) continue;
+          auto it = got.find(kv.first);
+          auto tg = target.find(kv.first);
+          if (it == got.end()) {
+            string files;
+            for (auto& f : c.files) files += f.first + "(" + to_string(f.second.data.size()) + ") ";
+            Bad("maintenance-crash-loses-records", at + ": the record of '" + kv.first + "' is gone; on disk: " + files);
+            break;
+          }
+          if (!(it->second == kv.second) && !(tg != target.end() && it->second == tg->second)) {
+            Bad("maintenance-crash-changes-records", at + ": the record of '" + kv.first + "' is neither the old nor the new one");
+            break;
+          }
+        }
+      }
+    }
+    vfs::disk = nullptr;
+  }
+
   void Apply(const Op& op, vfs::Disk* d, const string& when) {
     ops++;
     vfs::disk = d;
@@ -306,6 +388,7 @@ struct Harness {
           vfs::disk = d;
         }
         if (!d->Get(kPath)) return;
+        if (sweep_crashes) { MaintenanceCrashSweep(*d, op, before, before, when); vfs::disk = d; }
         BuildLog log;
         string err;
         if (log.Load(kPath, &err) == LOAD_ERROR) { Bad("load-error", when); return; }
@@ -334,6 +417,17 @@ struct Harness {
           vfs::disk = d;
         }
         if (!d->Get(kPath)) return;
+        if (sweep_crashes) {
+          Entries target = before;
+          for (auto& kv : target) {
+            bool sel = op.restat.empty() || find(op.restat.begin(), op.restat.end(), kv.first) != op.restat.end();
+            if (!sel) continue;
+            const vfs::File* f = d->Get(kv.first);
+            kv.second.mtime = f ? vfs::TickToNs(f->mtime) : 0;
+          }
+          MaintenanceCrashSweep(*d, op, before, target, when);
+          vfs::disk = d;
+        }
         BuildLog log;
         string err;
         if (log.Load(kPath, &err) == LOAD_ERROR) { Bad("load-error", when); return; }
@@ -513,6 +607,7 @@ int main(int argc, char** argv) {
           Node t1 = t;
           t1.trail.push_back(c1.label);
           H.attempted = &t1.attempted;
+          H.sweep_crashes = true;
           H.Apply(c1, &t1.disk, c1.label);
           conts++;
           report(t1.trail);
@@ -522,6 +617,7 @@ int main(int argc, char** argv) {
               Node t2 = t1;
               t2.trail.push_back(c2.label);
               H.attempted = &t2.attempted;
+              H.sweep_crashes = false;
               H.Apply(c2, &t2.disk, c2.label);
               conts++;
               report(t2.trail);
@@ -543,6 +639,7 @@ int main(int argc, char** argv) {
       H.attempted = &m.attempted;
       // transitions are executed by every shard (cheap) so that all shards see the same state graph,
       // but only shard 0 reports their violations
+      H.sweep_crashes = true;
       H.Apply(op, &m.disk, op.label);
       transitions++;
       if (shard == 0) report(m.trail); else H.viols.clear();
@@ -557,6 +654,7 @@ int main(int argc, char** argv) {
   out.set("states", states);
   out.set("transitions", transitions);
   out.set("tears", tears);
+  out.set("crash_points", H.crash_points);
   out.set("continuations", conts);
   out.set("ops", H.ops);
   out.set("loads", H.loads);
